@@ -5,14 +5,20 @@
    keeps the node and edge ORDER of the input (so a component is presented to the phases exactly as the
    populated sole input would be, up to the numbering of its nodes), they are disjoint, cover the input, are
    closed under edges, appear in the order of their first node, and are themselves consistent.
-   C09_partial: "receives exactly the layout it would receive as the sole input" additionally needs the
-   invariance of every phase under an order-preserving renumbering of the arena indices; that lemma is NOT
-   mechanised. It is covered by the correspondence check (every component of every traced case is re-computed by
-   the model from its own observed state, which contains nothing of the other components but untouched arena
-   slots) and searched by the direct oracle (Layout(G1+G2) against Layout(G1), Layout(G2)). *)
+   "Receives exactly the layout it would receive as the sole input, translated horizontally" is proved in full
+   (C09_component_layout_is_sole_layout_translated, Proofs/Renumber*.v): every phase of the model is equivariant
+   under an injective renumbering of the arena indices (20 files, one per phase; fuel-recursive functions are
+   proved equivariant for independent fuels), the component of the union and the populated sole input are
+   isomorphic arenas, hence the output records of component k in Layout(es) are those of Layout(es restricted to
+   the component's edges) with node indices renamed by an injective map, x increased by the component's shift,
+   and y, sizes, arrow flags, route ordinates and the reported crossing number identical. The sole run can differ
+   only by running out of the model's fuel (C09_sole_layout_fails_only_by_fuel), never by a genuine error. Scope:
+   the positioners and routers run by the model function [layout] (VAlign, PackRight, SinkColoring, NetworkSimplex;
+   Straight, Polyline, Ortho); Brandes-Koepf and splines are not part of [layout]. *)
 From Coq Require Import List Permutation.
 From Coq Require Import QArith.
-From Autog Require Import Graph Populate Layout Check Consistent ComponentsProofs Summary Shift.
+From Autog Require Import Graph Populate Layout Pipeline Check Consistent ComponentsProofs Summary Shift.
+From Autog Require Import RenumberBase RenumberFinal.
 Import ListNotations.
 
 Theorem C09_components_partial : forall g, consistent g ->
@@ -65,3 +71,35 @@ Theorem C09_components_side_by_side : forall o gs ns es,
   (forall a, In a ns -> (0 <= on_x a)%Q).
 Proof. exact collect_all_separated. Qed.
 Print Assumptions C09_components_side_by_side.
+
+(* each component receives exactly the layout it would receive as the sole input, translated horizontally *)
+Theorem C09_component_layout_is_sole_layout_translated : forall (A : Type) (eqA : A -> A -> bool),
+  (forall x y, eqA x y = true <-> x = y) ->
+  forall o fixed sizes es ids g0 ns eo xs k c,
+  populate A eqA es = Ok (ids, g0) ->
+  layout A eqA o fixed sizes es = Ok (ids, (ns, eo, xs)) ->
+  nth_error (components (apply_sizes A eqA fixed sizes ids g0)) k = Some c ->
+  forall ids1 ns1 eo1 xs1,
+  layout A eqA o fixed sizes (map (fun i => nth i es []) (g_E c)) = Ok (ids1, (ns1, eo1, xs1)) ->
+  exists gs sigma,
+    inj sigma /\
+    collect_all o gs 0 = (ns, eo) /\
+    Forall2 (fun c g => exists x, layout_component o c = Ok (g, x))
+            (components (apply_sizes A eqA fixed sizes ids g0)) gs /\
+    Forall2 (onode_shifted sigma (shift_at o gs 0 k)) ns1 (comp_nodes o gs 0 k) /\
+    Forall2 (oedge_shifted sigma (shift_at o gs 0 k)) eo1 (comp_edges o gs 0 k) /\
+    (exists x, layout_component o c = Ok (nth k gs graph0, x) /\
+               xs1 = match x with Some v => [v] | None => [] end).
+Proof. exact component_layout_is_sole_layout_translated. Qed.
+Print Assumptions C09_component_layout_is_sole_layout_translated.
+
+Theorem C09_sole_layout_fails_only_by_fuel : forall (A : Type) (eqA : A -> A -> bool),
+  (forall x y, eqA x y = true <-> x = y) ->
+  forall o fixed sizes es ids g0 ns eo xs k c,
+  populate A eqA es = Ok (ids, g0) ->
+  layout A eqA o fixed sizes es = Ok (ids, (ns, eo, xs)) ->
+  nth_error (components (apply_sizes A eqA fixed sizes ids g0)) k = Some c ->
+  (exists r, layout A eqA o fixed sizes (map (fun i => nth i es []) (g_E c)) = Ok r) \/
+  (exists w, layout A eqA o fixed sizes (map (fun i => nth i es []) (g_E c)) = Err (ErrFuel w)).
+Proof. exact sole_layout_fails_only_by_fuel. Qed.
+Print Assumptions C09_sole_layout_fails_only_by_fuel.
